@@ -9,7 +9,7 @@ Variable F : nat -> flags.
 
 Notation bef := (TreeLower.bef F). Notation aft := (TreeLower.aft F). Notation be_ := (TreeLower.be_ F).
 Notation bx_ := (TreeLower.bx_ F). Notation sa_ := (TreeLower.sa_ F).
-Notation lower := (TreeLower.lower F).
+Notation lower := (TreeLower.lower F []).
 
 (* ---------- flattening ---------- *)
 Fixpoint flatF1 (x : instr) : list (fop * flags) :=
